@@ -163,8 +163,8 @@ PROPS = {
         mechanism_clauses=['too_deep_is_an_error', 'continues_the_callers_depth', 'the_body_runs_at_the_callers_depth'],
         kani_quick=[],
         kani_thorough=ARITH_FAST + CONV + MATH,
-        level_text='Totality is the conjunction of the safety obligations of every function under contract: for each of them Verus proves, for all inputs satisfying its precondition, no arithmetic overflow, no division by zero, every index in bounds, every unwrap/expect on Some/Ok, every panic!/unreachable! unreachable, and that each call site establishes its callee\'s precondition. The claim covers exactly the functions listed in the evidence (value operators, comparisons, indexing, macros, the VM loop and stack, label resolution, numeric built-ins through Kani); it is not a whole-program claim.',
-        not_covered=['functions not under contract: the recursive-descent parser and tokenizer, JSON / protobuf conversions, Display, regex / uom / chrono-tz internals, string built-ins beyond their wiring, python / wasm bindings',
+        level_text='Totality is the conjunction of the safety obligations of every function under contract: for each of them Verus proves, for all inputs satisfying its precondition, no arithmetic overflow, no division by zero, every index in bounds, every unwrap/expect on Some/Ok, every panic!/unreachable! unreachable, and that each call site establishes its callee\'s precondition. The claim covers exactly the functions listed in the evidence (value operators, comparisons, indexing, macros, the VM loop and stack, label resolution, the tokenizer and every parse function of the compiler, JSON binding, sort, the string / time / unit-conversion wrappers, numeric built-ins through Kani); it is not a whole-program claim.',
+        not_covered=['functions not under contract: protobuf conversions, Display / Debug formatting, the internals of regex / uom / chrono-tz / serde_json, matchCaptures, zip / now and the remaining small built-ins, the #[dispatch]-generated entry points (arity and type rejection), CelContext and Program (de)serialization, python / wasm bindings',
                      'stack exhaustion by deep syntactic nesting in the parser (no depth guard to put a contract on)', 'termination (never fails to return) is not proved',
                      'protobuf-gated arms (verified configuration: type_prop + neg_index)'],
         assumptions=['Debug / Display formatting of values inside error messages does not panic'],
